@@ -25,6 +25,11 @@ type asConfig struct {
 	Strategy   map[string]string `json:"strategy"`
 	LaunchFail []string          `json:"launchFail"`
 	HookFail   []string          `json:"hookFail"` // [actor, hook]
+	// the following are used by random / directed scenarios only (not part of the TLC model)
+	HookFailMode string              `json:"hookFailMode,omitempty"` // "" = the hook returns an error, "panic" = it panics
+	KilledFail   []string            `json:"killedFail,omitempty"`   // actors whose behaviour fails on a child's OnKilled notification
+	LateSpawn    []string            `json:"lateSpawn,omitempty"`    // actors that spawn one more child when a child dies while they are being killed
+	DecisionSeq  map[string][]string `json:"decisionSeq,omitempty"`  // supervisor -> decision per consultation (the last one repeats)
 }
 
 type asScenario struct {
@@ -78,6 +83,7 @@ type asExec struct {
 	sysOf    map[*mailbox.UnboundedMailbox]bool
 	stuck    string
 	held     map[string]vivid.ActorRef
+	consults map[string]int
 }
 
 func (x *asExec) ev(e map[string]any) {
@@ -117,9 +123,11 @@ func (x *asExec) nameOfRef(r vivid.ActorRef) string {
 
 // scriptActor is the behaviour every modelled actor runs.
 type scriptActor struct {
-	x    *asExec
-	name string
-	inst int
+	x        *asExec
+	name     string
+	inst     int
+	gotKill  bool // this instance has received OnKill
+	lateDone bool
 }
 
 func (a *scriptActor) has(list []string) bool {
@@ -146,6 +154,9 @@ func (a *scriptActor) OnPrelaunch(ctx vivid.PrelaunchContext) error {
 	ok := !a.hookFails("prelaunch")
 	a.x.ev(map[string]any{"e": "Hook", "a": a.name, "k": "prelaunch", "v": b2i(ok)})
 	if !ok {
+		if a.x.sc.Cfg.HookFailMode == "panic" {
+			panic("prelaunch failed")
+		}
 		return errors.New("prelaunch failed")
 	}
 	return nil
@@ -155,6 +166,9 @@ func (a *scriptActor) OnPreRestart(ctx vivid.RestartContext) error {
 	ok := !a.hookFails("prerestart")
 	a.x.ev(map[string]any{"e": "Hook", "a": a.name, "k": "prerestart", "v": b2i(ok)})
 	if !ok {
+		if a.x.sc.Cfg.HookFailMode == "panic" {
+			panic("prerestart failed")
+		}
 		return errors.New("prerestart failed")
 	}
 	return nil
@@ -167,6 +181,9 @@ func (a *scriptActor) OnRestarted(ctx vivid.RestartContext) error {
 	ok := !a.hookFails("restarted")
 	a.x.ev(map[string]any{"e": "Hook", "a": a.name, "k": "restarted", "v": b2i(ok), "i": a.inst})
 	if !ok {
+		if a.x.sc.Cfg.HookFailMode == "panic" {
+			panic("restarted failed")
+		}
 		return errors.New("restarted failed")
 	}
 	return nil
@@ -211,12 +228,26 @@ func (a *scriptActor) OnReceive(ctx vivid.ActorContext) {
 			ctx.Failed("launch failure")
 		}
 	case *vivid.OnKill:
+		a.gotKill = true
 		x.ev(map[string]any{"e": "Deliv", "a": a.name, "k": "kill", "i": a.inst, "v": b2i(m.Poison)})
 	case *vivid.OnKilled:
 		if m.Ref.Equals(ctx.Ref()) {
 			x.ev(map[string]any{"e": "Deliv", "a": a.name, "k": "killed", "p": a.name, "i": a.inst})
 		} else {
 			x.ev(map[string]any{"e": "Deliv", "a": a.name, "k": "childkilled", "p": x.nameOfRef(m.Ref), "i": a.inst})
+			if a.gotKill && a.has(x.sc.Cfg.LateSpawn) && !a.lateDone {
+				// a handler other than the OnKill handler spawns while the actor is already being killed
+				a.lateDone = true
+				late := a.name + "x"
+				ref, err := ctx.ActorOf(&scriptActor{x: x, name: late, inst: 1}, vivid.WithActorName(late))
+				if err == nil {
+					x.noteSpawn(late, a.name, ref) // the scenario's parent map already names the late child
+				}
+			}
+			if a.has(x.sc.Cfg.KilledFail) {
+				x.ev(map[string]any{"e": "Fail", "a": a.name, "k": "childkilled", "v": b2i(a.gotKill)})
+				ctx.Failed("failure while handling a child's termination")
+			}
 		}
 	case umsg:
 		x.ev(map[string]any{"e": "Deliv", "a": a.name, "k": "user", "m": m.ID, "i": a.inst, "s": m.Op})
@@ -320,6 +351,17 @@ func (x *asExec) actorOptions(name string) []vivid.ActorOption {
 			if c := sctx.Child().First(); c != nil {
 				failing = x.nameOfRef(c)
 			}
+			d := d
+			if seq := x.sc.Cfg.DecisionSeq[name]; len(seq) > 0 {
+				x.mu.Lock()
+				k := x.consults[name]
+				x.consults[name]++
+				x.mu.Unlock()
+				if k >= len(seq) {
+					k = len(seq) - 1
+				}
+				d = seq[k]
+			}
 			x.ev(map[string]any{"e": "Consult", "a": name, "p": failing, "d": d, "s": x.sc.Cfg.Strategy[name], "n": len(sctx.Children())})
 			return asDecision[d], "scripted"
 		})
@@ -382,7 +424,7 @@ func newASExec(sc *asScenario) (*asExec, error) {
 	installDispatch()
 	x := &asExec{sc: sc, nextID: 1, refs: map[string]vivid.ActorRef{}, mbox: map[string]*mailbox.UnboundedMailbox{},
 		restarts: map[string]int{}, inst: map[string]int{}, paths: map[string]string{},
-		gated: map[*mailbox.UnboundedMailbox]string{}, sysOf: map[*mailbox.UnboundedMailbox]bool{}}
+		gated: map[*mailbox.UnboundedMailbox]string{}, sysOf: map[*mailbox.UnboundedMailbox]bool{}, consults: map[string]int{}}
 	x.sys = actor.NewSystem(vivid.WithActorSystemContext(context.Background()), vivid.WithActorSystemLogger(silentLogger),
 		vivid.WithActorSystemStopTimeout(3*time.Second))
 	c := ctl.New()
